@@ -87,8 +87,9 @@ class Scratch:
         shutil.rmtree(self.dir, ignore_errors=True)
 
 
-def _java(heap_mb):
-    return ["java", "-XX:+UseParallelGC", "-Xmx%dm" % heap_mb, "-Xss64m", "-cp", TLA_CP, "tlc2.TLC"]
+def _java(heap_mb, tmpdir=None):
+    # java.io.tmpdir: TLC leaves an empty tlc-<n> directory per run; keep it in the scratch directory of the run
+    return ["java", "-XX:+UseParallelGC", "-Xmx%dm" % heap_mb, "-Xss64m"] + (["-Djava.io.tmpdir=" + tmpdir] if tmpdir else []) + ["-cp", TLA_CP, "tlc2.TLC"]
 
 
 _STATS = re.compile(r"(\d+) states generated, (\d+) distinct states found, (\d+) states left on queue")
@@ -96,7 +97,7 @@ _STATS = re.compile(r"(\d+) states generated, (\d+) distinct states found, (\d+)
 
 def run_tlc(cwd, module, cfg, workers=1, heap_mb=4096, timeout=600, extra=(), stdout_path=None):
     """Run TLC; returns dict(rc, out, generated, distinct, violated, error)."""
-    cmd = _java(heap_mb) + ["-workers", str(workers), "-metadir", os.path.join(cwd, "md-" + module + "-" + cfg.replace(".cfg", "")),
+    cmd = _java(heap_mb, cwd) + ["-workers", str(workers), "-metadir", os.path.join(cwd, "md-" + module + "-" + cfg.replace(".cfg", "")),
                             "-config", cfg, "-lncheck", "final"] + list(extra) + [module + ".tla"]
     t0 = time.time()
     try:
